@@ -79,14 +79,15 @@ PROPS = {
                 "punctuation) at every token boundary and a random quoting of every argument; compared: walk of Tree.Root (keyword, argument, line:col of every keyword) with the model and with the generated tree",
     },
     "C13": {
-        "streams": {"ytypes": {"quick": 4000, "thorough": 200000}},
+        "streams": {"ytypes": {"quick": 4000, "thorough": 200000}, "yvals": {"quick": 2000, "thorough": 100000, "spec_proj": "verdicts"}},
         "trusted": ["Go float64 comparison / strconv.ParseFloat = SF64 (checked bit-for-bit by C01's stream 'sf')",
                     "patterns (RE2) are opaque: only their accumulation along the chain is observed (count), not their language"],
         "modelled": ["union / identityref / leafref / bits / instance-identifier members of a chain are outside this model",
                      "decimal64 boundaries are binary64 in the code and in the model; the specification is exact: open known finding"],
         "rule": "random typedef chains (depth 0-4) over int8..64, uint8..64, decimal64 fd 1..18, string, boolean, empty, enumeration; each level with an optional range/length "
                 "(1-3 parts, min/max keywords, adjacent and overlapping parts, boundaries at the base's bounds +/- 1, wrong restriction kind) and an optional default; the module is "
-                "compiled by the real compiler and the leaf's Type.Validate is probed with boundary +/- 1 values and malformed lexemes; compared: compile verdict, Type.Default(), verdict per probe",
+                "compiled by the real compiler and the leaf's Type.Validate is probed with boundary +/- 1 values and malformed lexemes; compared: compile verdict, Type.Default(), verdict per probe; "
+                "yvals (shared with C16): chains whose levels each add patterns, lengths and ranges with their error statements — the patterns of every level must all hold",
     },
     "C16": {
         "streams": {"ytypes": {"quick": 4000, "thorough": 200000}, "yvals": {"quick": 3000, "thorough": 150000, "spec_proj": "verdicts"}},
